@@ -196,6 +196,12 @@ int main()
       auto base = filled<int>(d, [](int i) { return 1 + i; });
       IndexShiftedArray3D<int> sh(base, s);
       out << show_arr(sh, -1, d.x + 1, -1, d.y + 1, -1, d.z + 1, true);
+    } else if (k == "RP") {
+      vec3i d, r;
+      in >> d.x >> d.y >> d.z >> r.x >> r.y >> r.z;
+      std::shared_ptr<Array3D<int>> base = filled<int>(d, [](int i) { return 1 + i; });
+      Array3DRepeater<int> rp(base, r);
+      out << show_arr(rp, -2, 2 * r.x + 2, -2, 2 * r.y + 2, -2, 2 * r.z + 2, true);
     } else if (k == "SB") {
       vec3i d, lo, hi;
       in >> d.x >> d.y >> d.z >> lo.x >> lo.y >> lo.z >> hi.x >> hi.y >> hi.z;
